@@ -224,6 +224,15 @@ func stableSign(a, b, c Point) Direction {
 	det := -e1.Cross(e2).Dot(op)
 	maxErr := detErrorMultiplier * math.Sqrt(e1.Norm2()*e2.Norm2())
 
+	// Errors smaller than this value may not be accurate due to underflow
+	// (the squared edge lengths above lose precision or vanish), so the
+	// determinant cannot be trusted. 1.4916681462400413e-154 is the square
+	// root of the smallest normalized float64.
+	const minNoUnderflowError = detErrorMultiplier * 1.4916681462400413e-154
+	if maxErr < minNoUnderflowError {
+		return Indeterminate
+	}
+
 	// If the determinant isn't zero, within maxErr, we know definitively the point ordering.
 	if det > maxErr {
 		return CounterClockwise
